@@ -636,6 +636,49 @@ class ClassTr:
                 out.append(t)
         return out
 
+    def translate_newargs(self):
+        """Attributes returned by __getnewargs__, for classes whose own __new__ can hand out a shared / cached
+        instance (pickle then writes the pickled state into whatever __new__(cls, *newargs) returned, so the
+        newargs must determine the whole state).  None: not applicable."""
+        owner_new = next((c for c in self.cls.__mro__ if "__new__" in c.__dict__), object)
+        if owner_new is object or owner_new.__name__ in ("Expr", "Operator", "Terminal"):
+            return None
+        gn = getattr(self.cls, "__getnewargs__", None)
+        if gn is None:
+            return None
+        node, qn = fn_ast(gn)
+        self.sources["getnewargs"] = qn
+        b = body_wo_doc(node)
+        if len(b) != 1 or not isinstance(b[0], ast.Return):
+            raise Untranslatable(f"{self.name}.__getnewargs__: not a single return")
+        v = b[0].value
+        elts = v.elts if isinstance(v, ast.Tuple) else [v]
+        out = []
+        for e_ in elts:
+            f = self.read_field(e_)
+            if f is None:
+                raise Untranslatable(f"{self.name}.__getnewargs__: element not an attribute: {dump(e_)}")
+            out.append(f)
+        return out
+
+    def literal_normalisation(self):
+        """For literal classes: the builtin type the constructor converts the stored value to
+        (`super().__init__(int(value))`), which is what makes `==` on values imply equal rendering."""
+        for m in ("_init", "__init__"):
+            fn = self.cls.__dict__.get(m)
+            if fn is None:
+                continue
+            node, _ = fn_ast(fn)
+            for c in ast.walk(node):
+                if isinstance(c, ast.Call) and isinstance(c.func, ast.Attribute) and c.func.attr == "__init__" and c.args:
+                    a = c.args[-1]
+                    if isinstance(a, ast.Call) and isinstance(a.func, ast.Name) and a.func.id in ("int", "float", "complex") \
+                            and len(a.args) == 1 and isinstance(a.args[0], ast.Name):
+                        return a.func.id
+                    if isinstance(a, ast.Name):
+                        return None
+        return None
+
     def translate(self):
         eqs = self.translate_eq()
         rep = self.expand_operands(self.translate_repr())
@@ -651,7 +694,13 @@ class ClassTr:
             return res
         rep = num(rep)
         hsh = hsh if hsh == "ofrepr" else num(hsh)
-        return Spec(self.name, list(self.fields), eqs, rep, hsh, self)
+        na = self.translate_newargs()
+        if na is not None and any(f.startswith("ufl_operands[") for f in self.fields) and na == ["ufl_operands"]:
+            na = [f for f in self.fields if f.startswith("ufl_operands[")]
+        sp = Spec(self.name, list(self.fields), eqs, rep, hsh, self)
+        sp.newargs = None if na is None else [self.fnum(f) for f in na]
+        sp.fields = list(self.fields)
+        return sp
 
 
 # ------------------------------------------------------------------------------------------------
@@ -694,6 +743,16 @@ class Spec:
 
     def partial_ok(self):
         return all(self.proper(c) or self.trivial(c) for c in self.eqs)
+
+    def newargs_cover(self):
+        """mirror of Coq's newargs_cover; True when not applicable"""
+        if getattr(self, "newargs", None) is None:
+            return True
+        na = set(self.newargs)
+        toks = list(self.rep) + ([] if self.hsh == "ofrepr" else list(self.hsh))
+        if any(t[0] != "tf" or t[1] not in na for t in toks):
+            return False
+        return all(c[0] != "cmp" or (c[2] in na and c[5] in na) for c in self.eqs)
 
     def uncovered(self):
         """Tokens of repr / hash data that == does not determine: [(where, token)]"""
